@@ -9,6 +9,8 @@ aligned with the host's own timers (same loop iteration, ordered before the time
 """
 from __future__ import annotations
 
+from ..excfam import family
+
 import asyncio
 import logging
 
@@ -89,7 +91,7 @@ def run_case(V, case):
             except EzspError:
                 res = ("EzspError", clock() - t0)
             except BaseException as ex:  # noqa: BLE001
-                res = (type(ex).__name__, clock() - t0)
+                res = (family(ex), clock() - t0)
             await asyncio.sleep(0.05)
             n1 = sum(1 for e in trace if e[0] == "line" and e[2] == "h2n")
             info["probe"] = res + (n1 - n0,)
@@ -202,8 +204,8 @@ def run_case(V, case):
                 info["calls"][name].update(end=clock(), outcome="cancelled")
                 raise
             except BaseException as ex:  # noqa: BLE001
-                info["calls"][name].update(end=clock(), outcome=type(ex).__name__)
-                trace.append(("exc", clock(), name, type(ex).__name__, str(ex)[:60]))
+                info["calls"][name].update(end=clock(), outcome=family(ex))
+                trace.append(("exc", clock(), name, family(ex), str(ex)[:60]))
                 return None
 
         try:
@@ -385,7 +387,7 @@ def judge(V, case, trace, info):
         if pr is None:
             bad.append(("C10/stopped/probe-did-not-run", "probe after the reset request did not finish"))
         else:
-            if pr[0] != "EzspError" or pr[1] > 1e-6:
+            if pr[0] in ("returned", "TimeoutError", "CancelledError") or pr[1] > 1e-6:
                 bad.append(("C10/stopped/new-command-not-refused-at-once",
                             f"a command issued after the reset request ended with {pr[0]} after {pr[1]:.3f}s"))
             elif pr[2] != 0:
